@@ -354,17 +354,19 @@ class ThreadPoolServer(Server):
         Server.close(self)
         # stop producer thread
         self.polling_thread.join()
+        # terminate the connections still being served: Server.close() cannot reach them, because this server
+        # forgets the accepted sockets (see _accept_method) and tracks connections in fd_to_conn instead.
+        # This comes before joining the workers: a worker may be blocked reading from a client that stalled
+        # in the middle of a packet, and only closing that connection wakes it up
+        for fd in list(self.fd_to_conn):
+            self._remove_from_inactive_connection(fd)
+            self._drop_connection(fd)
         # cleanup thread pool : first fill the pool with None fds so that all threads exit
         # the blocking get on the queue of active connections. Then join the threads
         for _ in range(len(self.workers)):
             self._active_connection_queue.put(None)
         for w in self.workers:
             w.join()
-        # terminate the connections still being served: Server.close() cannot reach them, because this server
-        # forgets the accepted sockets (see _accept_method) and tracks connections in fd_to_conn instead
-        for fd in list(self.fd_to_conn):
-            self._remove_from_inactive_connection(fd)
-            self._drop_connection(fd)
 
     def _remove_from_inactive_connection(self, fd):
         '''removes a connection from the set of inactive ones'''
